@@ -68,7 +68,10 @@ func (m ttyModel) Update(msg tea.Msg) (tea.Model, tea.Cmd) {
 				m.logf("rsize %d %d", st.Width, st.Height)
 			}
 		}
+	case tea.ResumeMsg:
+		m.logf("resume")
 	case tea.KeyMsg:
+		m.logf("key %s", v.String())
 		switch v.String() {
 		case "q":
 			return m, tea.Quit
@@ -78,6 +81,9 @@ func (m ttyModel) Update(msg tea.Msg) (tea.Model, tea.Cmd) {
 			atomic.StoreInt32(m.panicView, 1)
 		case "w":
 			return m, tea.WindowSize()
+		case "s":
+			m.logf("suspending")
+			return m, tea.Suspend
 		case "b":
 			m.logf("blocking")
 			for {
@@ -449,6 +455,9 @@ func scenPty(out *scenOut, rr *rng, thorough bool) {
 		ptyStaleSize(out)
 		ptyResizeAfterExec(out)
 		ptySizeWithPipeInput(out)
+		for _, mode := range []string{"default", "default-alt"} {
+			ptySuspend(out, mode)
+		}
 	}()
 	reps := 3
 	if thorough {
@@ -847,5 +856,115 @@ func ptySizeWithPipeInput(out *scenOut) {
 	select {
 	case <-r.exited:
 	case <-time.After(3 * time.Second):
+	}
+}
+
+// ptySuspend: the Suspend command (ctrl+z handling of a program): the terminal is released (modes
+// off, line discipline back), the process signals itself and waits to be continued; on SIGCONT the
+// terminal is taken back (alt screen, bracketed paste and focus reporting as before, raw mode), a
+// ResumeMsg reaches Update exactly once, keys are read again, and at quit everything is restored.
+// (The child leads a session of its own, so its process group is orphaned and the kernel discards
+// the stop signal: the program waits for SIGCONT without being stopped, which is all it can see of
+// a suspension anyway.) SIGINT while suspended is ignored (C18: terminal released).
+func ptySuspend(out *scenOut, mode string) {
+	desc := "mode=" + mode + ": key, Suspend, SIGINT while suspended, SIGCONT, key, quit"
+	r, err := startPtyChild(mode, 80, 24)
+	if err != nil {
+		return
+	}
+	defer r.cleanup()
+	if !r.waitLog("size ", 5*time.Second) {
+		return
+	}
+	time.Sleep(40 * time.Millisecond)
+	modesNow := func() string {
+		t := newVterm(80, 24)
+		t.write([]byte(r.out.String()))
+		return vtModes(t)
+	}
+	running := modesNow()
+	raw, _ := unix.IoctlGetTermios(int(r.pair.slave.Fd()), unix.TCGETS)
+	initial := (modeSpec{}).String()
+	if running == initial {
+		out.fail(finding{Property: "C17", Class: "harness", What: "program modes never left the initial ones", Input: desc})
+		return
+	}
+	r.pair.master.Write([]byte("s"))
+	if !r.waitLog("suspending", 3*time.Second) {
+		return
+	}
+	out.record("suspend/"+mode, desc)
+	if !waitFor(3*time.Second, func() bool { return modesNow() == initial }) {
+		out.fail(finding{Property: "C17", Class: "new", What: "terminal not in its restored state while the program is suspended", Input: desc, Expected: initial, Observed: modesNow()})
+		return
+	}
+	time.Sleep(30 * time.Millisecond)
+	during, _ := unix.IoctlGetTermios(int(r.pair.slave.Fd()), unix.TCGETS)
+	if r.before != nil && during != nil && *during != *r.before {
+		out.fail(finding{Property: "C17", Class: "new", What: "line discipline not put back while the program is suspended", Input: desc,
+			Expected: fmt.Sprintf("%+v", *r.before), Observed: fmt.Sprintf("%+v", *during)})
+	}
+	n0 := r.out.Len()
+	// released: signals are ignored
+	r.cmd.Process.Signal(syscall.SIGINT)
+	time.Sleep(60 * time.Millisecond)
+	select {
+	case <-r.exited:
+		out.fail(finding{Property: "C18", Class: "new", What: "SIGINT ended the program while its terminal was released (suspended)", Input: desc})
+		return
+	default:
+	}
+	if r.out.Len() != n0 {
+		out.fail(finding{Property: "C17", Class: "new", What: "the program wrote to the terminal while suspended", Input: desc, Observed: fmt.Sprintf("%d bytes", r.out.Len()-n0)})
+	}
+	r.cmd.Process.Signal(syscall.SIGCONT)
+	if !r.waitLog("resume", 3*time.Second) {
+		out.fail(finding{Property: "C17", Class: "new", What: "no ResumeMsg after the suspended program was continued", Input: desc, Observed: strings.Join(r.logLines(), ";")})
+		return
+	}
+	time.Sleep(40 * time.Millisecond)
+	// what comes back: alt screen, bracketed paste, focus reporting, hidden cursor (mouse modes are not re-established, as after Exec)
+	want := running
+	got := modesNow()
+	strip := func(s string) string { // compare without the mouse modes
+		var keep []string
+		for _, f := range strings.Fields(s) {
+			if !strings.HasPrefix(f, "m1002") && !strings.HasPrefix(f, "m1003") && !strings.HasPrefix(f, "m1006") {
+				keep = append(keep, f)
+			}
+		}
+		return strings.Join(keep, " ")
+	}
+	if strip(got) != strip(want) {
+		out.fail(finding{Property: "C17", Class: "new", What: "alt screen / bracketed paste / focus reporting / cursor not as before after the suspended program was continued", Input: desc, Expected: strip(want), Observed: strip(got)})
+	}
+	back, _ := unix.IoctlGetTermios(int(r.pair.slave.Fd()), unix.TCGETS)
+	if raw != nil && back != nil && *raw != *back {
+		out.fail(finding{Property: "C17", Class: "new", What: "input terminal not in raw mode again after the suspended program was continued", Input: desc,
+			Expected: fmt.Sprintf("%+v", *raw), Observed: fmt.Sprintf("%+v", *back)})
+	}
+	if n := len(r.linesWith("resume")); n != 1 {
+		out.fail(finding{Property: "C17", Class: "new", What: "ResumeMsg not delivered exactly once", Input: desc, Expected: "1", Observed: fmt.Sprint(n)})
+	}
+	// input is read again
+	r.pair.master.Write([]byte("x"))
+	if !r.waitLog("key x", 3*time.Second) {
+		out.fail(finding{Property: "C17", Class: "new", What: "input is not read again after the suspended program was continued", Input: desc, Observed: strings.Join(r.logLines(), ";")})
+	}
+	r.pair.master.Write([]byte("q"))
+	select {
+	case <-r.exited:
+	case <-time.After(4 * time.Second):
+		out.fail(finding{Property: "C04", Class: "new", What: "Run does not return (quit after a suspension)", Input: desc, Observed: strings.Join(r.logLines(), ";")})
+		return
+	}
+	time.Sleep(20 * time.Millisecond)
+	if gotm := modesNow(); gotm != initial {
+		out.fail(finding{Property: "C05", Class: "new", What: "terminal modes not restored when Run returned (after a suspension)", Input: desc, Expected: initial, Observed: gotm})
+	}
+	after, _ := unix.IoctlGetTermios(int(r.pair.slave.Fd()), unix.TCGETS)
+	if r.before != nil && after != nil && *r.before != *after {
+		out.fail(finding{Property: "C05", Class: "new", What: "termios of the input terminal differ from those before Run (after a suspension)", Input: desc,
+			Expected: fmt.Sprintf("%+v", *r.before), Observed: fmt.Sprintf("%+v", *after)})
 	}
 }
